@@ -1,0 +1,18 @@
+//go:build verif
+
+package query
+
+// VerifPipelineMutexFree reports whether the state machine's mutex can be taken right now
+// (TryLock + Unlock). A mutex that stays taken while no goroutine is inside a critical section
+// was leaked by a panic between Lock and Unlock (property C19, Complete() hook witness).
+func VerifPipelineMutexFree(p Pipeline) (free bool, ok bool) {
+	pp, isPipeline := p.(*pipeline)
+	if !isPipeline {
+		return false, false
+	}
+	if pp.sm.mutex.TryLock() {
+		pp.sm.mutex.Unlock()
+		return true, true
+	}
+	return false, true
+}
